@@ -44,18 +44,21 @@ pub struct GraphCase {
     pub vanish: bool,
     /// marker commands take this long (natural flavour: a coordinator that stops waiting too early)
     pub slow_ms: u32,
+    /// odd files use the `stem.v2.txtpp.txt` source shape (output `stem.v2.txt`): dependency
+    /// detection has to map the dotted output name back to that source
+    pub shaped: bool,
 }
 
 impl GraphCase {
     pub fn new(n: usize, mask: u64) -> Self {
-        Self { n, mask, kinds: 0, requested: (0..n).collect(), input_style: 0, threads: 2, stale: true, dup_edges: false, markers: true, obs: false, mode: Mode::Build, subdirs: false, fail_at: None, fail_kind: 0, after_only: false, vanish: false, slow_ms: 0 }
+        Self { n, mask, kinds: 0, requested: (0..n).collect(), input_style: 0, threads: 2, stale: true, dup_edges: false, markers: true, obs: false, mode: Mode::Build, subdirs: false, fail_at: None, fail_kind: 0, after_only: false, vanish: false, slow_ms: 0, shaped: false }
     }
     pub fn graph(&self) -> Graph {
         Graph::from_mask(self.n, self.mask, self.kinds)
     }
     pub fn to_json(&self, spec: &Spec) -> Value {
         json!({"kind": "graph", "n": self.n, "mask": self.mask, "kinds": self.kinds, "requested": self.requested, "input_style": self.input_style, "threads": self.threads,
-            "stale": self.stale, "dup_edges": self.dup_edges, "markers": self.markers, "obs": self.obs, "mode": mode_name(&self.mode), "subdirs": self.subdirs, "fail_at": self.fail_at, "fail_kind": self.fail_kind, "after_only": self.after_only, "vanish": self.vanish, "slow_ms": self.slow_ms,
+            "stale": self.stale, "dup_edges": self.dup_edges, "markers": self.markers, "obs": self.obs, "mode": mode_name(&self.mode), "subdirs": self.subdirs, "fail_at": self.fail_at, "fail_kind": self.fail_kind, "after_only": self.after_only, "vanish": self.vanish, "slow_ms": self.slow_ms, "shaped": self.shaped,
             "edges": self.graph().edges.iter().enumerate().map(|(i, e)| format!("f{i} -> {:?}", e.iter().map(|(j, k)| format!("f{j}{}", if *k == EdgeKind::AfterCat { "(after+cat)" } else { "" })).collect::<Vec<_>>())).collect::<Vec<_>>(),
             "schedule": spec_json(spec)})
     }
@@ -79,12 +82,13 @@ impl GraphCase {
                 after_only: v["after_only"].as_bool().unwrap_or(false),
                 vanish: v["vanish"].as_bool().unwrap_or(false),
                 slow_ms: v["slow_ms"].as_u64().unwrap_or(0) as u32,
+                shaped: v["shaped"].as_bool().unwrap_or(false),
             },
             spec_from_json(&v["schedule"]),
         )
     }
     pub fn hash(&self) -> u64 {
-        crate::util::hash_str(&format!("{:?}", (self.n, self.mask, self.kinds, &self.requested, self.input_style, self.threads, self.stale, self.dup_edges, self.subdirs, mode_name(&self.mode), (self.fail_at, self.fail_kind, self.after_only, self.vanish))))
+        crate::util::hash_str(&format!("{:?}", (self.n, self.mask, self.kinds, &self.requested, self.input_style, self.threads, self.stale, self.dup_edges, self.subdirs, mode_name(&self.mode), (self.fail_at, self.fail_kind, self.after_only, self.vanish, self.shaped))))
     }
     fn dir_of(&self, i: usize) -> &'static str {
         if self.subdirs && i % 2 == 1 {
@@ -93,12 +97,30 @@ impl GraphCase {
             ""
         }
     }
+    fn file_name(&self, i: usize) -> String {
+        if self.shaped && i % 2 == 1 {
+            format!("f{i}.v2.txt")
+        } else {
+            graph_name(i)
+        }
+    }
+    /// output path of vertex i
     fn path_of(&self, i: usize) -> String {
         let d = self.dir_of(i);
         if d.is_empty() {
-            graph_name(i)
+            self.file_name(i)
         } else {
-            format!("{d}/{}", graph_name(i))
+            format!("{d}/{}", self.file_name(i))
+        }
+    }
+    /// source path of vertex i
+    fn src_of(&self, i: usize) -> String {
+        let d = self.dir_of(i);
+        let name = if self.shaped && i % 2 == 1 { format!("f{i}.v2.txtpp.txt") } else { format!("{}.txtpp", graph_name(i)) };
+        if d.is_empty() {
+            name
+        } else {
+            format!("{d}/{name}")
         }
     }
 }
@@ -134,7 +156,7 @@ pub struct GraphRun {
 fn build_files(case: &GraphCase, generation: u32, marker_log: Option<&str>, obs_log: Option<&str>) -> Files {
     let g = case.graph();
     let flat = graph_files(&g, generation, 0xabc0 + case.mask, if case.markers { marker_log } else { None }, if case.obs { obs_log } else { None }, case.dup_edges);
-    if !case.subdirs && case.fail_at.is_none() && !case.after_only && !case.vanish && case.slow_ms == 0 {
+    if !case.subdirs && case.fail_at.is_none() && !case.after_only && !case.vanish && case.slow_ms == 0 && !case.shaped {
         return flat;
     }
     // re-home odd files into d/ and rewrite references accordingly; inject the failing command
@@ -144,13 +166,14 @@ fn build_files(case: &GraphCase, generation: u32, marker_log: Option<&str>, obs_
         let mut out = String::new();
         for line in src.lines() {
             let mut l = line.to_string();
-            if case.subdirs {
+            if case.subdirs || case.shaped {
                 for j in 0..case.n {
                     let name = graph_name(j);
+                    let file = case.file_name(j);
                     let rel = match (case.dir_of(i), case.dir_of(j)) {
-                        ("", "d") => format!("d/{name}"),
-                        ("d", "") => format!("../{name}"),
-                        _ => name.clone(),
+                        ("", "d") => format!("d/{file}"),
+                        ("d", "") => format!("../{file}"),
+                        _ => file.clone(),
                     };
                     if rel != name {
                         for pat in [format!("include {name}"), format!("include ./{name}"), format!("after {name}"), format!("cat {name}"), format!("< {name})")] {
@@ -186,7 +209,7 @@ fn build_files(case: &GraphCase, generation: u32, marker_log: Option<&str>, obs_
             let idx = out.rfind(&format!("{}:tail:", graph_name(i))).unwrap_or(out.len());
             out.insert_str(idx, "<!--TXTPP#run rm -rf gone\n");
         }
-        files.insert(format!("{}.txtpp", case.path_of(i)), out.into_bytes());
+        files.insert(case.src_of(i), out.into_bytes());
     }
     if case.fail_at.is_some() && case.fail_kind == 4 {
         for d in ["", "d/"] {
@@ -202,11 +225,11 @@ fn inputs_of(case: &GraphCase) -> Vec<String> {
         let p = case.path_of(i);
         match case.input_style {
             0 => v.push(p),
-            1 => v.push(format!("{p}.txtpp")),
+            1 => v.push(case.src_of(i)),
             2 => v.push(format!("./{p}")),
             3 => {
                 v.push(p.clone());
-                v.push(format!("{p}.txtpp"));
+                v.push(case.src_of(i));
                 v.push(format!("./{p}"));
                 // a spelling with `..` (directory `alias` always exists in graph projects)
                 v.push(format!("alias/../{p}"));
@@ -250,7 +273,7 @@ pub fn exec(ctx: &mut Ctx, case: &GraphCase, spec: Spec, log_events: bool) -> Gr
     materialize(&root, &files, &dirs);
     if let (Some(f), 8) = (case.fail_at, case.fail_kind) {
         // the model keeps the clean text; on disk a line in the middle of the source is undecodable
-        let p = root.join(format!("{}.txtpp", case.path_of(f)));
+        let p = root.join(case.src_of(f));
         let mut b = std::fs::read(&p).unwrap_or_default();
         let needle = format!("{}:tail:", graph_name(f)).into_bytes();
         let idx = b.windows(needle.len()).rposition(|w| w == &needle[..]).unwrap_or(0); // start of the tail line
@@ -268,12 +291,12 @@ pub fn exec(ctx: &mut Ctx, case: &GraphCase, spec: Spec, log_events: bool) -> Gr
             }
         }
     }
-    let required_sources: Vec<String> = (0..case.n).filter(|&i| required[i]).map(|i| format!("{}.txtpp", case.path_of(i))).collect();
+    let required_sources: Vec<String> = (0..case.n).filter(|&i| required[i]).map(|i| case.src_of(i)).collect();
     let expect = model::evaluate(&files, &root.to_string_lossy(), true, &required_sources);
     // stale previous generation at every output path
     if case.stale {
         let old = build_files(case, 0, None, None);
-        let old_expect = model::evaluate(&old, &root.to_string_lossy(), true, &(0..case.n).map(|i| format!("{}.txtpp", case.path_of(i))).collect::<Vec<_>>());
+        let old_expect = model::evaluate(&old, &root.to_string_lossy(), true, &(0..case.n).map(|i| case.src_of(i)).collect::<Vec<_>>());
         for i in 0..case.n {
             let p = case.path_of(i);
             let bytes = match old_expect.built.outputs.get(&p) {
@@ -286,7 +309,7 @@ pub fn exec(ctx: &mut Ctx, case: &GraphCase, spec: Spec, log_events: bool) -> Gr
     // verify mode: plant the outputs a correct build would have left (for cyclic graphs made of
     // `after`-only edges: the self-consistent outputs of an earlier, cycle-free revision)
     if matches!(case.mode, Mode::Verify) {
-        let all: Vec<String> = (0..case.n).map(|i| format!("{}.txtpp", case.path_of(i))).collect();
+        let all: Vec<String> = (0..case.n).map(|i| case.src_of(i)).collect();
         let mut base = files.clone();
         if !g.is_acyclic() {
             for v in base.values_mut() {
@@ -348,7 +371,7 @@ pub fn exec(ctx: &mut Ctx, case: &GraphCase, spec: Spec, log_events: bool) -> Gr
                     continue;
                 }
                 let p = case.path_of(i);
-                let src = format!("{p}.txtpp");
+                let src = case.src_of(i);
                 if !matches!(expect.per_source.get(&src), Some(Ok(()))) {
                     continue;
                 }
